@@ -46,6 +46,7 @@ type HarnessSpec struct {
 
 type UnitSpec struct {
 	RewriteGo []string      `json:"rewrite_go"` // repo files (relative to dir) whose go statements become verif_Go tasks
+	RewriteSync []string    `json:"rewrite_sync"` // repo files that get a verif_Yield() before every lock/atomic operation
 	Dir       string        `json:"dir"`
 	Files     []string      `json:"files"`
 	Harnesses []HarnessSpec `json:"harnesses"`
@@ -119,6 +120,91 @@ func rewriteGoStmts(path string) ([]byte, error) {
 	return buf.Bytes(), nil
 }
 
+var syncOpNames = map[string]bool{"Lock": true, "Unlock": true, "RLock": true, "RUnlock": true, "Load": true, "Store": true,
+	"Add": true, "CompareAndSwap": true, "Swap": true, "TryLock": true, "Do": true}
+
+// hasSyncCall reports whether expression/simple-statement n (not descending into
+// function literals or nested blocks) calls a lock or atomic method.
+func hasSyncCall(n ast.Node) bool {
+	if n == nil {
+		return false
+	}
+	found := false
+	ast.Inspect(n, func(x ast.Node) bool {
+		switch v := x.(type) {
+		case *ast.FuncLit, *ast.BlockStmt:
+			return false
+		case *ast.CallExpr:
+			if sel, ok := v.Fun.(*ast.SelectorExpr); ok && syncOpNames[sel.Sel.Name] {
+				found = true
+			}
+		}
+		return !found
+	})
+	return found
+}
+
+// rewriteSyncYields inserts `verif_Yield()` before every statement that performs a
+// lock or atomic operation, so that the engine (coarse scheduling) and the native replay
+// (baton) see the same preemption points inside the repository's own code. The code is
+// otherwise unchanged; the rewritten file exists in scratch overlays only.
+func rewriteSyncYields(path string, src []byte) ([]byte, error) {
+	fset := token.NewFileSet()
+	var in interface{}
+	if src != nil {
+		in = src
+	}
+	f, err := parser.ParseFile(fset, path, in, parser.ParseComments)
+	if err != nil {
+		return nil, err
+	}
+	yield := func() ast.Stmt {
+		return &ast.ExprStmt{X: &ast.CallExpr{Fun: ast.NewIdent("verif_Yield")}}
+	}
+	needs := func(st ast.Stmt) bool {
+		switch v := st.(type) {
+		case *ast.DeferStmt, *ast.GoStmt, *ast.BlockStmt, *ast.LabeledStmt:
+			return false
+		case *ast.IfStmt:
+			return hasSyncCall(v.Init) || hasSyncCall(v.Cond)
+		case *ast.ForStmt:
+			return hasSyncCall(v.Init) || hasSyncCall(v.Cond)
+		case *ast.SwitchStmt:
+			return hasSyncCall(v.Init) || hasSyncCall(v.Tag)
+		case *ast.TypeSwitchStmt, *ast.SelectStmt, *ast.RangeStmt:
+			return false
+		default:
+			return hasSyncCall(st)
+		}
+	}
+	fix := func(list []ast.Stmt) []ast.Stmt {
+		var out []ast.Stmt
+		for _, st := range list {
+			if needs(st) {
+				out = append(out, yield())
+			}
+			out = append(out, st)
+		}
+		return out
+	}
+	ast.Inspect(f, func(n ast.Node) bool {
+		switch v := n.(type) {
+		case *ast.BlockStmt:
+			v.List = fix(v.List)
+		case *ast.CaseClause:
+			v.Body = fix(v.Body)
+		case *ast.CommClause:
+			v.Body = fix(v.Body)
+		}
+		return true
+	})
+	var buf bytes.Buffer
+	if err := printer.Fprint(&buf, fset, f); err != nil {
+		return nil, err
+	}
+	return buf.Bytes(), nil
+}
+
 func mustRead(p string) string {
 	b, err := os.ReadFile(p)
 	if err != nil {
@@ -175,6 +261,18 @@ func load(spec *Spec) *loaded {
 			out, err := rewriteGoStmts(path)
 			if err != nil {
 				return &loaded{errs: []string{"rewrite_go " + rf + ": " + err.Error()}}
+			}
+			ov[path] = out
+		}
+		for _, rf := range u.RewriteSync {
+			path := filepath.Join(dir, rf)
+			var src []byte
+			if prev, ok := ov[path]; ok {
+				src = prev
+			}
+			out, err := rewriteSyncYields(path, src)
+			if err != nil {
+				return &loaded{errs: []string{"rewrite_sync " + rf + ": " + err.Error()}}
 			}
 			ov[path] = out
 		}
